@@ -33,6 +33,8 @@ import ClipperVerif.Driver.C08Tidy
 import ClipperVerif.Driver.SweepEvents
 import ClipperVerif.Driver.AelRingsZ
 import ClipperVerif.Driver.AelOpenRingsZ
+import ClipperVerif.Driver.SweepPoints
+import ClipperVerif.Driver.SweepHorz
 import ClipperVerif.Driver.JoinCond
 namespace Clipper.Driver
 open Clipper.Proto
@@ -73,7 +75,9 @@ def handlers : List (String → Option (P String)) := [
   JoinCond.handle,
   SweepEvents.handle,
   AelRingsZ.handle,
-  AelOpenRingsZ.handle
+  AelOpenRingsZ.handle,
+  SweepPoints.handle,
+  SweepHorz.handle
 ]
 
 def dispatch1 (cmd : String) : Option (P String) :=
